@@ -13,8 +13,54 @@ SESSION_ORACLES = tuple('expand'.split(','))
 
 
 class S(SessionSim):
+    """Besides the sessions opened after every operation: ONE long-lived default-mode Wordnet
+    (an application's module-level ``wn.Wordnet()``), queried, kept while further lexicons and
+    extensions are ADDED (by this or another process), and queried again through the same
+    object. Its selected and expand lexicons are those of its creation; the lexicons a target
+    is mapped into are, as in any default-mode Wordnet, the synset's lexicon with its bases
+    and its *currently installed* extensions. Dropped at the first operation that is not an
+    addition (objects that outlive a removal are not judged, DESIGN.md section 10)."""
     session_oracles = SESSION_ORACLES
     configs_per_state = 5
+    KEEP = ('add', 'add_ili', 'restart')
+
+    def after_op(self, op):
+        import random
+        import warnings
+        kind = op['op']
+        inner = op.get('do', {}).get('op') if kind == 'external' else None
+        kept = self.__dict__.get('kept') or []
+        if not (kind in self.KEEP or inner == 'add'):
+            kept = []
+        self.kept = kept
+        super().after_op(op)
+        if not self.m.installed:
+            return
+        rng = random.Random('%s:kept:%d' % (self.seed, self.step))
+        self.W.begin_op(budget=self.budget * 50)
+        try:
+            with warnings.catch_warnings():
+                warnings.simplefilter('ignore')
+                for k in kept:
+                    if sorted(self.m.installed) == sorted(k['S']) and rng.random() < 0.5:
+                        continue
+                    ctx = {'cfg': {'retained-default-mode-since-step': k['step']},
+                           'S': k['S'], 'default': True, 'E': k['S'], 'retained': True}
+                    obs = sorted(lx.specifier() for lx in k['w'].lexicons())
+                    if obs == sorted(k['S']):
+                        self.check_expand(k['w'], ctx, [], [], rng)
+                        self.probe('retained-default-mode-requeried')
+                        if sorted(self.m.installed) != sorted(k['S']):
+                            self.probe('retained-default-mode-after-add')
+                S0 = list(self.m.installed)
+                if not any(sorted(k['S']) == sorted(S0) for k in kept):
+                    w, _warns, exc = self.open({})
+                    if exc is None and sorted(lx.specifier() for lx in w.lexicons()) == sorted(S0):
+                        ctx = {'cfg': {}, 'S': S0, 'default': True, 'E': S0, 'retained': True}
+                        self.check_expand(w, ctx, [], [], rng)      # the first round of queries
+                        self.kept = (kept + [{'w': w, 'S': S0, 'step': self.step}])[-3:]
+        finally:
+            self.W.end_op()
 
 
 def profile(rng):
@@ -37,9 +83,23 @@ def build_big(seed):
     return u, [{'op': 'add', 'res': 'r0'}, {'op': 'add', 'res': 'r1'}]
 
 
+def build_hub(seed):
+    rng = subseed(seed, 'universe-hub')
+    u = U.generate_hub(rng)
+    plan = [{'op': 'add', 'res': r['name']} for r in u['resources']]
+    if rng.random() < 0.3:
+        plan.insert(2, {'op': 'restart'})
+    if rng.random() < 0.3:
+        plan[-1] = {'op': 'external', 'do': plan[-1]}
+    return u, plan
+
+
 def build(seed):
-    if subseed(seed, 'big').random() < 0.003:
+    r = subseed(seed, 'big').random()
+    if r < 0.003:
         return build_big(seed)     # a hub synset with > 1000 borrowed relations
+    if r < 0.03:
+        return build_hub(seed)     # hubs of 40-300 children, extensions arriving later
     rng = subseed(seed, 'universe')
     u = U.generate(rng, profile(rng))
     prng = subseed(seed, 'plan')
